@@ -167,7 +167,16 @@ impl Worker {
 
 impl Drop for Worker {
     fn drop(&mut self) {
+        // closing its input makes the worker leave its loop and exit by itself (so that an
+        // instrumented build can write its profile); it is killed if it does not do so promptly
         self.stdin.take();
+        for _ in 0..100 {
+            match self.child.try_wait() {
+                Ok(Some(_)) => return,
+                Ok(None) => std::thread::sleep(Duration::from_millis(20)),
+                Err(_) => break,
+            }
+        }
         let _ = self.child.kill();
         let _ = self.child.wait();
     }
